@@ -104,6 +104,13 @@ class Lean:
                 res["driver_log"] = out2[-6000:]
             if res["ok"]:
                 self._audit(prop, res)
+            if res["ok"] and os.environ.get("VERIF_TIER_EFFECTIVE") == "thorough":
+                # independent re-check of the compiled theorems by leanchecker (thorough tier only)
+                rc3, out3 = sh(["lake", "env", "leanchecker", "Props.%s" % prop], cwd=LEAN, timeout=3000)
+                res["leanchecker"] = "ok" if rc3 == 0 else out3[-1500:]
+                if rc3 != 0:
+                    res["ok"] = False
+                    res["problems"].append("leanchecker rejected Props.%s" % prop)
         finally:
             fcntl.flock(lock, fcntl.LOCK_UN)
             lock.close()
@@ -224,7 +231,10 @@ class Ctx:
 
     # ---- proof side -------------------------------------------------------------------------
     def proof_phase(self):
+        os.environ["VERIF_TIER_EFFECTIVE"] = self.tier
         self.proof = Lean().prepare(self.prop)
+        if "leanchecker" in self.proof:
+            self.extra["leanchecker"] = self.proof["leanchecker"]
         if not self.proof["driver_ok"]:
             # without a driver no correspondence can run; this is infrastructure unless the
             # generated tables are what broke it (then the proof side is broken too)
